@@ -21,7 +21,9 @@ pub enum Site {
 }
 
 /// (sign of the shift on l, r, o; recompute o = l*r afterwards)
-pub const GATE2_KINDS: [([i8; 3], bool, &str); 7] = [
+pub const GATE2_KINDS: [([i8; 3], bool, &str); 9] = [
+    ([1, 0, 0], true, "l+d,o=l*r"),
+    ([0, 1, 0], true, "r+d,o=l*r"),
     ([1, -1, 0], false, "l+d,r-d"),
     ([1, 1, 0], false, "l+d,r+d"),
     ([1, 0, 1], false, "l+d,o+d"),
